@@ -374,6 +374,15 @@ class HierDictDocument(DictDocument):
                 if subinst is None:
                     subinst = []
 
+                if v is None:
+                    v = ()
+
+                elif isinstance(v, (dict,) + six.string_types
+                                                       + (six.binary_type,)) \
+                                            or not isinstance(v, AbcIterable):
+                    # a single value where a sequence of them is expected
+                    raise ValidationError([k, v])
+
                 for a in v:
                     subinst.append(
                             self._from_dict_value(ctx, k, member, a, validator))
